@@ -17,6 +17,53 @@ pub fn tick_bound(n: u64) -> u64 {
     2000 * n * n + n + 10
 }
 
+impl C10 {
+    /// The probe executable on one program, levels 0..2 (or only `sc.level` when replaying a violation).
+    pub fn real_case(&self, sc: &Scenario) -> (u64, Option<Violation>) {
+        let probe_exe = match crate::real::optprobe() {
+            Ok(p) => p,
+            Err(e) => {
+                println!("HARNESS-ERROR: {}", e);
+                std::process::exit(2);
+            }
+        };
+        if parse_checked(sc).is_err() {
+            return (0, None);
+        }
+        let nn = sc.cmds.len() as u64;
+        let window = (101 * nn * nn + nn + 10).min(80_000);
+        let pf = reflang::preflight(&sc.cmds, &sc.stdin, window, sc.cap_bits, false);
+        if matches!(pf.halt, Halt::Cap | Halt::Memory | Halt::Ended(End::Unspecified(_))) {
+            return (0, None);
+        }
+        let model_encoding = matches!(pf.halt, Halt::Ended(End::Encoding(_)));
+        let dir = sim::scratch_dir().join("c10real");
+        std::fs::create_dir_all(&dir).expect("mkdir");
+        let prog = dir.join("p.hyeong");
+        let sent = dir.join("sentinel.txt");
+        std::fs::write(&prog, sc.file_content()).expect("write");
+        std::fs::write(&sent, SENTINEL).expect("write");
+        let mut c = 0u64;
+        for level in 0u8..=2 {
+            let args = vec![prog.to_string_lossy().into_owned(), level.to_string()];
+            let (r, consumed) = crate::real::run_stdin_file(&probe_exe, &args, &sent, std::time::Duration::from_secs(60)).expect("spawn");
+            c += 1;
+            let so = String::from_utf8_lossy(&r.stdout).into_owned();
+            let marker_ok = (so.starts_with("DONE ok ") && so.ends_with('\n') && so.lines().count() == 1) || (so == "DONE err\n" && model_encoding && level == 2);
+            if r.timed_out || r.status != Some(0) || consumed != 0 || !marker_ok || !r.stderr.is_empty() {
+                let mut v = Violation::new(
+                    &format!("real-O{}-effects", level),
+                    "completion marker only, stdin sentinel fully unread, empty stderr, status 0",
+                    format!("{} ; {} bytes of stdin consumed ; stdout {:?} ; stderr {:?}", r.describe(), consumed, truncate(&so, 200), truncate(&String::from_utf8_lossy(&r.stderr), 200)),
+                );
+                v.world = "real";
+                return (c, Some(v));
+            }
+        }
+        (c, None)
+    }
+}
+
 impl Property for C10 {
     fn id(&self) -> &'static str {
         "C10"
@@ -69,6 +116,9 @@ impl Property for C10 {
         sc.stdin = SENTINEL.as_bytes().to_vec();
         sc.plan = gen::gen_plan(rng, true);
         sc.cap_bits = 128;
+        if rng.chance(20) {
+            sc.set_knob("layout", 1);
+        }
         sc
     }
     fn run(&self, sc: &Scenario) -> RunOut {
@@ -179,48 +229,21 @@ impl Property for C10 {
             Tier::Quick => 500,
             Tier::Thorough => 30_000,
         };
+        let _ = probe_exe;
         let (spawned, bad) = crate::runner::par_find(n, |i| {
             let sc = crate::runner::make_scenario(self, seed, i, tier);
-            if parse_checked(&sc).is_err() {
-                return (0, None);
+            let (c, v) = self.real_case(&sc);
+            match v {
+                Some(v) => (c, Some((sc, v))),
+                None => (c, None),
             }
-            let nn = sc.cmds.len() as u64;
-            let window = (101 * nn * nn + nn + 10).min(80_000);
-            let pf = reflang::preflight(&sc.cmds, &sc.stdin, window, sc.cap_bits, false);
-            if matches!(pf.halt, Halt::Cap | Halt::Memory | Halt::Ended(End::Unspecified(_))) {
-                return (0, None);
-            }
-            let model_encoding = matches!(pf.halt, Halt::Ended(End::Encoding(_)));
-            let dir = sim::scratch_dir().join("c10real");
-            std::fs::create_dir_all(&dir).expect("mkdir");
-            let prog = dir.join("p.hyeong");
-            let sent = dir.join("sentinel.txt");
-            std::fs::write(&prog, sc.file_content()).expect("write");
-            std::fs::write(&sent, SENTINEL).expect("write");
-            let mut c = 0u64;
-            for level in 0u8..=2 {
-                let args = vec![prog.to_string_lossy().into_owned(), level.to_string()];
-                let (r, consumed) = crate::real::run_stdin_file(&probe_exe, &args, &sent, std::time::Duration::from_secs(60)).expect("spawn");
-                c += 1;
-                let so = String::from_utf8_lossy(&r.stdout).into_owned();
-                let marker_ok = (so.starts_with("DONE ok ") && so.ends_with('\n') && so.lines().count() == 1) || (so == "DONE err\n" && model_encoding && level == 2);
-                if r.timed_out || r.status != Some(0) || consumed != 0 || !marker_ok || !r.stderr.is_empty() {
-                    let mut v = Violation::new(
-                        &format!("real-O{}-effects", level),
-                        "completion marker only, stdin sentinel fully unread, empty stderr, status 0",
-                        format!("{} ; {} bytes of stdin consumed ; stdout {:?} ; stderr {:?}", r.describe(), consumed, truncate(&so, 200), truncate(&String::from_utf8_lossy(&r.stderr), 200)),
-                    );
-                    v.world = "real";
-                    let mut s = sc.clone();
-                    s.level = level;
-                    return (c, Some((s, v)));
-                }
-            }
-            (c, None)
         });
         stats.extra.push(("realworld_spawns".into(), J::Int(spawned as i64)));
         stats.extra.push(("realworld_note".into(), J::str("probe executable linked against the guard-off library calls optimize(code, level); stdin is a regular file whose shared offset shows any consumed byte; stdout must be exactly the completion marker, stderr empty, status 0")));
         bad
+    }
+    fn replay_real(&self, sc: &Scenario) -> Option<Violation> {
+        self.real_case(sc).1
     }
     fn components(&self) -> J {
         J::obj()
